@@ -1,4 +1,4 @@
-import ChessVerif.Spec.San
+import ChessVerif.Spec.SanExec
 import ChessVerif.Driver.Ops
 /-
 Driver work for the text, iterator, game, cache, table, bitboard and symmetry operations.
@@ -123,29 +123,9 @@ def opBPARSE (args res : List String) : Findings := Id.run do
 
 /-! ### SAN / UCI / squares -/
 
-/-- executable form of `SanSpec.IsSpelling` over the list `lm` of legal moves of `p`: is `s` an admissible spelling of
-`m ∈ lm`? (all 4 × 3 × 2 combinations of disambiguation, suffix and ` e.p.` mark; castling text with the three
-suffixes; the text is compared first, uniqueness among `lm` last) -/
-def isSpellingB (p : Pos) (lm : List Move) (m : Move) (s : List Char) : Bool :=
-  if isCastle p m then
-     [SanSpec.Suffix.none, .check, .mate].any fun sfx =>
-       s == (if m.dst.file > m.src.file then "O-O".toList else "O-O-O".toList) ++ SanSpec.suffixText sfx
-  else
-     let pawnCapture := ((p.board m.src).map (·.1) == some .pawn) && SanSpec.isCapture p m
-     let ep := isEnPassant p m
-     [SanSpec.Disamb.none, .file, .rank, .both].any fun d =>
-       (!pawnCapture || d == .file || d == .both) &&
-       [SanSpec.Suffix.none, .check, .mate].any fun sfx =>
-         [false, true].any fun epMark =>
-           (!epMark || ep) &&
-           s == SanSpec.spell p m d sfx epMark &&
-           lm.all fun m' => !SanSpec.agrees p d m m' || m' == m
-
-/-- the legal moves of which `s` is an admissible spelling (at most one, by `unambiguous`) -/
-def sanDenotes (p : Pos) (s : List Char) : List Move :=
-  let lm := legalMoves p
-  lm.filter fun m => isSpellingB p lm m s
-
+-- the executable form of `SanSpec.IsSpelling` used below is `SanSpec.sanDenotes` (`Spec/SanExec.lean`);
+-- `C12_sanDenotes_iff`, `C12_sanDenotes_eq_singleton_iff` and `C12_isSpelling_unique` (`Props/C12Exec.lean`) prove that it
+-- is exactly the specification and that a text is an admissible spelling of at most one legal move.
 def opSAN (args res : List String) : Findings := Id.run do
   let mut fs : Findings := #[]
   let some b := args[0]?.bind board? | return #[⟨'E', "parse", "bad board"⟩]
@@ -164,7 +144,7 @@ def opSAN (args res : List String) : Findings := Id.run do
     -- completeness judged by the specification itself on every text that comes without an expectation (placement-
     -- derived texts, mutated texts, castling text) — not by the harness's writer, which only knows the moves the
     -- library generates: a text that is an admissible spelling of exactly one legal move denotes that move
-    match (if exp == "?" then sanDenotes p txt else []) with
+    match (if exp == "?" then SanSpec.sanDenotes p txt else []) with
     | [m] => if impl != s!"OK {showMv m}" then
         fs := fs.push (fO "san" s!"{String.ofList txt} is an admissible spelling of the legal move {showMv m} (and of no other), got {impl}")
     | _ => pure ()
